@@ -111,7 +111,7 @@ theorem nocache_rerun_witness :
   constructor
   · intro hf
     simp [loadDepList, d, s, st0, c, mkT, loadOutputs, hf]
-    have hx' : (P.run ⟨[], 0, [], []⟩ (viewAt (fun l => if l = [100] then some d else none) d s.fs)).exit0 = true := hx
+    have hx' : (P.run ⟨[], 0, [], [], false⟩ (viewAt (fun l => if l = [100] then some d else none) d s.fs)).exit0 = true := hx
     simp [execTarget, d, mkT, s, c, checksPass, collect, viewAt] at hx' ⊢
     simp [hx']
   · intro hf
